@@ -119,7 +119,7 @@ impl LinkFlowState<role::SenderMarker> {
                 }
             &&& !flow.drain ==> {
                     &&& final(self).lock.delivery_count == s0.delivery_count                               // [C08.flow.count-untouched] only the sender's own sends advance delivery-count
-                    &&& final(self).lock.link_credit == credit                                             // [C08.flow.formula] link-credit_snd := delivery-count_rcv + link-credit_rcv - delivery-count_snd (serial arithmetic; unchanged when the flow carries no credit)
+                    &&& final(self).lock.link_credit == credit                                             // [C08.flow.formula] link-credit_snd := delivery-count_rcv + link-credit_rcv - delivery-count_snd (serial arithmetic; unchanged when the flow carries no credit) [C16.cancel.consumed-credit-not-resurrected] a sender that is AHEAD of the receiver's count by more than the credit granted (credits consumed by sends that were cancelled before their transfer left, or still in flight) has NO credit -- never a wrapped-around huge one: later sends wait instead of being transmitted without credit and lost
                     &&& r == (if flow.echo { Some(flow_of(final(self).lock, output_handle, false, false)) } else { None })   // [C08.flow.echo]
                 }
             &&& final(self).lock.drain == flow.drain                                                       // [C08.flow.drain-recorded]
